@@ -97,14 +97,14 @@ func (s *SliceKeyIndexLoader) Load(indexPath string, metadata *proto.MetaData) (
 		return nil, fmt.Errorf("error while creating index reader of sstable in '%s': %w", indexPath, err)
 	}
 
+	defer func() {
+		err = errors.Join(err, reader.Close())
+	}()
+
 	err = reader.Open()
 	if err != nil {
 		return nil, fmt.Errorf("error while opening index reader of sstable in '%s': %w", indexPath, err)
 	}
-
-	defer func() {
-		err = errors.Join(err, reader.Close())
-	}()
 
 	capacity := uint64(0)
 	if metadata != nil {
